@@ -75,9 +75,9 @@ theorem C01_compose (cfg : Config) (c : Circuit) (hp : printable c = true) (hB :
   rw [htext]
   exact hb
 
-/-- The property for parser-produced circuits, as stated. It is FALSE for the code as it stands: see
-`C01_zero_step_counterexample` (`map b r[0:t:0]` with a let bound is accepted with the literal step 0, which
-`notate_slice` does not write). -/
+/-- The property for parser-produced circuits. (It used to be refuted by `map b r[0:t:0]`: a literal zero step next
+to a let bound was accepted and then not written by `notate_slice`; `Register.__init__` now rejects it before looking
+at the other bounds, see `C01_zero_step_rejected`.) -/
 def C01_roundtrip_full : Prop :=
   ∀ (cfg : Config) (txt : String) (c : Circuit), cfg.autoload = false → parseProgram cfg txt = .ok c →
     ∃ t c', gen c = .ok t ∧ parseProgram cfg t = .ok c' ∧ circuitEq c c' = true ∧ gen c' = .ok t
@@ -109,43 +109,40 @@ and NO splicing: a parser-produced circuit has no directly nested same-kind bloc
 is the S-expression half).  Needs the builder's context after the first build to be reproduced by the second
 (names unique per namespace: `C14_names_distinct`; memo transparency: `C07_memo_transparent`). -/
 def C01_rebuild_full : Prop :=
-  ∀ (cfg : Config) (txt : String) (c : Circuit), cfg.autoload = false → parseProgram cfg txt = .ok c →
-    zeroStepFree c = true → Rebuild cfg c
+  ∀ (cfg : Config) (txt : String) (c : Circuit), cfg.autoload = false → parseProgram cfg txt = .ok c → Rebuild cfg c
 
-/-- The property, for circuits without a literal zero slice step, follows from the three range lemmas. -/
-theorem C01_roundtrip_partial (hP : C01_printable_full) (hB : C01_lex_gen_full) (hC : C01_rebuild_full)
-    (cfg : Config) (txt : String) (c : Circuit) (ha : cfg.autoload = false) (h : parseProgram cfg txt = .ok c)
-    (hz : zeroStepFree c = true) :
-    ∃ t c', gen c = .ok t ∧ parseProgram cfg t = .ok c' ∧ circuitEq c c' = true ∧ gen c' = .ok t :=
-  C01_compose cfg c (hP cfg txt c ha h) (hB cfg txt c ha h) (hC cfg txt c ha h hz)
+/-- The property follows from the three range lemmas. -/
+theorem C01_roundtrip_partial (hP : C01_printable_full) (hB : C01_lex_gen_full) (hC : C01_rebuild_full) :
+    C01_roundtrip_full :=
+  fun cfg txt c ha h => C01_compose cfg c (hP cfg txt c ha h) (hB cfg txt c ha h) (hC cfg txt c ha h)
 
-/-! ### the counterexample: a literal zero step next to a let bound -/
+/-! ### a literal zero step is rejected at build -/
 
 /-- the tree of `let t 1; register r[6]; map b r[0:t:0]` -/
 def zsSx : Sx :=
   .list [.str "circuit", .list [.str "let", .str "t", .int 1], .list [.str "register", .str "r", .int 6],
     .list [.str "map", .str "b", .str "r", .int 0, .str "t", .int 0]]
 
-def zsC : Circuit := match parseBuild {} zsSx with | .ok c => c | .error _ => {}
-def zsC2 : Circuit := match parseBuild {} (unbuild zsC) with | .ok c => c | .error _ => {}
+/-- `map b r[0:t:0]` is a JaqalError ("zero-step") although the stop is a let: the one parser-accepted shape that did
+not survive the round trip (`notate_slice` does not write a step of 0) is no longer accepted. -/
+theorem C01_zero_step_rejected :
+    (match parseBuild {} zsSx with
+     | .error (.jaqal r) => r == "zero-step"
+     | _ => false) = true := by decide +kernel
 
-/-- The builder accepts the slice `r[0:t:0]` (the zero-step check of `Register.__init__` is skipped when a bound is
-a let); the circuit is printable and `zeroStepFree` fails; its tree has NO step (`notate_slice` drops a falsy step);
-rebuilding the tree succeeds, but with the default step 1: the alias `b` of the rebuilt circuit is not `==` to the
-original one, so `circuitEq` fails — layer C is where the round trip breaks. -/
-theorem C01_zero_step_counterexample :
-    (parseBuild {} zsSx).toOption.isSome = true ∧ printable zsC = true ∧ zeroStepFree zsC = false ∧
-    (parseBuild {} (unbuild zsC)).toOption.isSome = true ∧
-    zsC.registers = [.regF "r" (.int 6), .regS "b" (.regF "r" (.int 6)) (.int 0) (.const "t" (.int 1)) (.int 0)] ∧
-    zsC2.registers = [.regF "r" (.int 6), .regS "b" (.regF "r" (.int 6)) (.int 0) (.const "t" (.int 1)) (.int 1)] ∧
-    dictEq Val.name? valEq zsC.registers zsC2.registers = false := by decide +kernel
-
-/-- hence `==` fails on the two circuits, whatever the other components are -/
-theorem C01_zero_step_not_equal : circuitEq zsC zsC2 = false := by
-  have h := C01_zero_step_counterexample.2.2.2.2.2.2
-  unfold circuitEq
-  rw [h]
-  simp
+/-- In general: `Register.__init__` never constructs a slice alias with the literal step 0. -/
+theorem C01_no_literal_zero_step (n : String) (src a b v : Val) : mkSlice n src a b (.int 0) ≠ .ok v := by
+  have key : ∃ e, sliceCheck src a b (.int 0) = .error e := by
+    unfold sliceCheck
+    generalize ((isIntLit a || isAV a) && (isIntLit b || isAV b) && (isIntLit (.int 0) || isAV (.int 0))) = X
+    cases X
+    · exact ⟨_, rfl⟩
+    · exact ⟨.jaqal "zero-step", rfl⟩
+  obtain ⟨e, he⟩ := key
+  intro h
+  unfold mkSlice at h
+  rw [he] at h
+  cases h
 
 /-! ## same meaning -/
 
@@ -164,8 +161,8 @@ theorem C01_meaning (ρ : Sem.Env) (c c' : Circuit) (hc : ParserLike c) (hc' : P
 S-expression handed to `build`: it builds to a printable circuit (numbers in let / argument positions, ints or
 names in size / index / bound / count positions, no `{ {} }`, no subcircuit inside `< >` or another subcircuit, loop
 and macro bodies are blocks) whose names lex as identifiers.  A register size or map index given as an integral
-FLOAT is accepted by the constructors but is not printable (`okRegister`, `okRef`): the real generator writes
-`register r[2.0]`, which does not parse — see `C01_builder_float_size_not_printable`. -/
+FLOAT is stored as an int (`build_register` / `build_map` apply `as_integer`), so it is printable — see
+`C01_builder_float_size_printable`. -/
 structure BuilderLegal (cfg : Config) (e : BSx) (c : Circuit) : Prop where
   built : (build cfg e).bind tooManyRegisters = .ok c
   printable : printable c = true
@@ -176,11 +173,11 @@ theorem C01_builder_api (cfg : Config) (e : BSx) (c : Circuit) (h : BuilderLegal
     ∃ t c', gen c = .ok t ∧ parseProgram cfg t = .ok c' ∧ circuitEq c c' = true ∧ gen c' = .ok t :=
   C01_compose cfg c h.printable h.lexes h.rebuilds
 
-/-- `["circuit", ["register", "r", 2.0]]` builds (an integral float is a valid size) to a circuit that is not
-printable: `generate_jaqal_program` writes `register r[2.0]`, a syntax error. -/
-theorem C01_builder_float_size_not_printable :
+/-- `["circuit", ["register", "r", 2.0]]` builds to the register of size `2` (an int): `register r[2]` is written.
+(Before the repair the float was stored and `register r[2.0]`, a syntax error, was written.) -/
+theorem C01_builder_float_size_printable :
     (build {} (.list [.str "circuit", .list [.str "register", .str "r", .flt ⟨false, 2, 0⟩]])).toOption.map
-      (fun (c : Circuit) => (c.registers, Pipeline.printable c)) = some ([Val.regF "r" (.flt ⟨false, 2, 0⟩)], false) := by
+      (fun (c : Circuit) => (c.registers, Pipeline.printable c)) = some ([Val.regF "r" (.int 2)], true) := by
   decide +kernel
 
 /-! ## fixpoints used by layer C -/
@@ -291,11 +288,11 @@ program (op `round_trip_layers`). -/
 #print axioms C01_parse_toks
 #print axioms C01_compose
 #print axioms C01_roundtrip_partial
-#print axioms C01_zero_step_counterexample
-#print axioms C01_zero_step_not_equal
+#print axioms C01_zero_step_rejected
+#print axioms C01_no_literal_zero_step
 #print axioms C01_meaning
 #print axioms C01_builder_api
-#print axioms C01_builder_float_size_not_printable
+#print axioms C01_builder_float_size_printable
 #print axioms C01_asInteger_idem
 #print axioms C01_subcount_fixpoint
 #print axioms C01_slice_stop_fixpoint
